@@ -1,4 +1,5 @@
 import TabulaModel.Lemmas.Xref
+import TabulaModel.Lemmas.XrefBytes
 /-!
 # C04 — Object lookup returns the newest revision, in any access order
 -/
@@ -94,5 +95,85 @@ example :
 example : IsChain [(100, ([(1, Entry.at 10)], some 50)), (50, ([(1, .at 5)], none))] 100
     [(100, [(1, .at 10)]), (50, [(1, .at 5)])] :=
   .step 100 _ 50 _ (by decide) (.last 50 _ (by decide))
+
+/-! ### byte-level entries -/
+open Tabula.XrefBytes Tabula.A1 in
+/-- **xref_stream_entry_roundtrip**: a binary cross-reference entry written with field widths
+`/W [w0 w1 w2]` (each at most 8 bytes; `w0 = 0` allowed for in-use entries, whose type is then
+the default 1) is read back as written, whatever follows it, and consumes exactly
+`w0+w1+w2` bytes. -/
+theorem xref_stream_entry_roundtrip (k : Kind) (f1 f2 w0 w1 w2 : Nat) (rest : List Nat)
+    (h0 : w0 ≤ 8) (h1 : w1 ≤ 8) (h2 : w2 ≤ 8) (hf1 : f1 < 256 ^ w1) (hf2 : f2 < 256 ^ w2)
+    (hk : 0 < w0 ∨ k = .inUse) :
+    parseStreamEntry (encodeStreamEntry k f1 f2 w0 w1 w2 ++ rest) w0 w1 w2 =
+      some ((k, f1, f2), w0 + w1 + w2) := by
+  unfold parseStreamEntry encodeStreamEntry
+  have hlen : ¬ ((beBytes (kindCode k) w0 ++ beBytes f1 w1 ++ beBytes f2 w2 ++ rest).length < w0 + w1 + w2) := by
+    simp [beBytes_length]; omega
+  simp only [hlen, if_false]
+  have hd1 : (beBytes (kindCode k) w0 ++ beBytes f1 w1 ++ beBytes f2 w2 ++ rest).drop w0 =
+      beBytes f1 w1 ++ (beBytes f2 w2 ++ rest) := by
+    rw [List.append_assoc, List.append_assoc, List.drop_append_of_le_length (by simp [beBytes_length])]
+    simp [beBytes_length]
+  have hd2 : (beBytes (kindCode k) w0 ++ beBytes f1 w1 ++ beBytes f2 w2 ++ rest).drop (w0 + w1) =
+      beBytes f2 w2 ++ rest := by
+    rw [← List.drop_drop, hd1, List.drop_append_of_le_length (by simp [beBytes_length])]
+    simp [beBytes_length]
+  rw [hd1, hd2, readBE_beBytes f1 w1 _ h1 hf1, readBE_beBytes f2 w2 _ h2 hf2]
+  by_cases hw : w0 > 0
+  · have hkc : kindCode k < 256 ^ w0 := by
+      have : kindCode k ≤ 2 := by cases k <;> simp [kindCode]
+      have : 256 ^ 1 ≤ 256 ^ w0 := Nat.pow_le_pow_right (by omega) hw
+      omega
+    have := readBE_beBytes (kindCode k) w0 (beBytes f1 w1 ++ (beBytes f2 w2 ++ rest)) h0 hkc
+    simp only [List.append_assoc] at this ⊢
+    simp only [hw, if_true, this]
+    cases k <;> rfl
+  · have hk' : k = .inUse := by
+      rcases hk with h | h
+      · exact absurd h hw
+      · exact h
+    subst hk'
+    simp [hw]
+
+open Tabula.XrefBytes Tabula.A1 in
+/-- **xref_entry_roundtrip**: the 18 significant bytes `nnnnnnnnnn ggggg n|f` of a classic
+cross-reference entry, followed by any end-of-line bytes (SP LF, SP CR, CR LF …), are read
+back as (offset, generation, in-use) for every offset below 10^10 and generation below 10^5. -/
+theorem xref_entry_roundtrip (off gen : Nat) (inUse : Bool) (eol : Str)
+    (hoff : off < 10 ^ 10) (hgen : gen < 10 ^ 5) :
+    parseEntry (fmtEntry off gen inUse ++ eol) = some ((off : Int), (gen : Int), inUse) := by
+  have hl1 : (padDec 10 off).length = 10 := padDec_length 10 off (dec_length_le off 9 hoff)
+  have hl2 : (padDec 5 gen).length = 5 := padDec_length 5 gen (dec_length_le gen 4 hgen)
+  unfold parseEntry fmtEntry
+  have hlen : ¬ ((padDec 10 off ++ [32] ++ padDec 5 gen ++ [32] ++ [if inUse then 110 else 102] ++ eol).length < 18) := by
+    simp [hl1, hl2]; omega
+  simp only [hlen, if_false]
+  have t1 : (padDec 10 off ++ [32] ++ padDec 5 gen ++ [32] ++ [if inUse then 110 else 102] ++ eol).take 10 = padDec 10 off := by
+    simp only [List.append_assoc]
+    rw [List.take_append_of_le_length (by omega)]
+    exact List.take_of_length_le (by omega)
+  have d1 : (padDec 10 off ++ [32] ++ padDec 5 gen ++ [32] ++ [if inUse then 110 else 102] ++ eol).drop 10 =
+      32 :: (padDec 5 gen ++ ([32] ++ ([if inUse then 110 else 102] ++ eol))) := by
+    simp only [List.append_assoc]
+    rw [List.drop_append_of_le_length (by omega)]
+    simp [hl1]
+  have t2 : ((padDec 10 off ++ [32] ++ padDec 5 gen ++ [32] ++ [if inUse then 110 else 102] ++ eol).drop 10).take 6 = 32 :: padDec 5 gen := by
+    rw [d1]
+    simp only [List.take_succ_cons]
+    rw [List.take_append_of_le_length (by omega)]
+    congr 1
+    exact List.take_of_length_le (by omega)
+  have d2 : (padDec 10 off ++ [32] ++ padDec 5 gen ++ [32] ++ [if inUse then 110 else 102] ++ eol).drop 16 =
+      32 :: ((if inUse then 110 else 102) :: eol) := by
+    have : (16 : Nat) = 10 + 6 := rfl
+    rw [this, ← List.drop_drop, d1]
+    simp only [List.drop_succ_cons]
+    rw [List.drop_append_of_le_length (by omega)]
+    simp [hl2]
+  rw [t1, t2, d2]
+  rw [trimSpace_digits _ (padDec_digits 10 off), trimSpace_space_digits _ (padDec_digits 5 gen)]
+  rw [atoi_padDec 10 off (by unfold maxInt64; omega), atoi_padDec 5 gen (by unfold maxInt64; omega)]
+  cases inUse <;> simp [trimSpace, List.dropWhile, isSpace]
 
 end Tabula.C04
